@@ -355,6 +355,13 @@ func (x *run) canonGraph() (string, *Failure) {
 		}
 		sb.WriteString(";")
 	}
+	// the wiring is a function of the set of registrations: every identity is served, and every
+	// argument filled, by the registration that owns it - not by whoever was constructed first
+	if sobs, problems := x.observations(); true {
+		if f := x.checkC04(sobs, problems); f != nil && f.Oracle == "right-constructor" {
+			return "", fail("C06", "wiring-by-registrations", f.Sig, "%s", f.Msg)
+		}
+	}
 	// every singleton's singleton arguments were fully constructed before it started
 	for _, inv := range x.W.AllInvs() {
 		if x.M.Regs[inv.Reg].Life != kit.Singleton {
@@ -406,7 +413,12 @@ func TestC06Container(t *testing.T) {
 	col := evid.New("C06", "container-permute-rebuild", fmt.Sprintf("configurations (buildable, or made defective by planting 0-2 extra dependencies / dropping providers) registered in %d random permutations that keep intra-group order, each built %d times in fresh worlds (fresh maps, fresh iteration order); oracle: identical verdict class everywhere (and equal to the model's when exactly one defect class is present), identical canonical object graph for successful builds, every singleton's singleton dependencies fully constructed before it starts; non-trivial = a singleton consumes a group whose members have dependencies, or dependency depth >=3, or unbuildable for a reason involving >=2 registrations", M, N))
 	defer col.Flush()
 	rapid.Check(t, func(rt *rapid.T) {
-		cfg := kit.GenConfig(rt, kit.FullOpts())
+		gopts := kit.FullOpts()
+		// in a third of the cases every multi-output registration that allows it has one of its
+		// identities removed and registered again by somebody else (a mock replaces one service of
+		// a package): which of the two is wired where must not depend on who is constructed first
+		gopts.ReplaceBias = rapid.IntRange(0, 2).Draw(rt, "replaceBias") == 0
+		cfg := kit.GenConfig(rt, gopts)
 		mode := rapid.IntRange(0, 3).Draw(rt, "mode")
 		var planted []string
 		var dropped []int
